@@ -230,6 +230,13 @@ Proof. unfold opt_dn. destruct i as [|c0 [|c1 [|c2 [|c r']]]]; try (intros [= <-
   destruct (is_dn c1 c2) eqn:Ed; cbn [andb]; [|intros [= <- <-]; exists []; now split].
   destruct (beq c ":"%byte); intros [= <- <-]; [|exists []; now split].
   apply Byte.byte_dec_bl in E0. subst c0. exists [":"%byte; c1; c2]. split; [exists c1, c2; now split|reflexivity]. Qed.
+Lemma opt_dn_m_inv i b r : opt_dn_m i = (b, r) -> exists d, DnStr b d /\ i = d ++ r.
+Proof. unfold opt_dn_m. destruct i as [|c0 [|c1 [|c2 [|c r']]]]; try (intros [= <- <-]; exists []; now split).
+  destruct (beq c0 ":"%byte) eqn:E0; cbn [andb]; [|intros [= <- <-]; exists []; now split].
+  destruct (is_dn c1 c2) eqn:Ed; cbn [andb]; [|intros [= <- <-]; exists []; now split].
+  destruct (beq c ":"%byte); cbn [andb]; [|intros [= <- <-]; exists []; now split].
+  destruct (negb _); intros [= <- <-]; [|exists []; now split].
+  apply Byte.byte_dec_bl in E0. subst c0. exists [":"%byte; c1; c2]. split; [exists c1, c2; now split|reflexivity]. Qed.
 Lemma opt_tag_inv t i b r : opt_tag t i = (b, r) -> i = (if b then t else []) ++ r.
 Proof. unfold opt_tag. destruct (tag t i) as [r'|] eqn:E; intros [= <- <-]; [now apply tag_inv in E|reflexivity]. Qed.
 Lemma opt_mrule_inv i mr r : opt_mrule i = (mr, r) ->
@@ -250,10 +257,10 @@ Proof.
 Qed.
 Theorem dn_mrule_inv i t r : dn_mrule i = Some (t, r) -> exists it s, i = s ++ r /\ ItemStrL it s /\ t = ber_item it.
 Proof.
-  unfold dn_mrule. destruct (opt_dn i) as [dn r1] eqn:Ed.
+  unfold dn_mrule. destruct (opt_dn_m i) as [dn r1] eqn:Ed.
   destruct (tag [":"%byte] r1) as [r1'|] eqn:Ec; [|discriminate]. destruct (attributetype r1') as [[m r2]|] eqn:Em; [|discriminate].
   destruct (tag [":"; "="]%byte r2) as [r3|] eqn:Et; [|discriminate]. destruct (unescaped r3) as [[v r4]|] eqn:Eu; [|discriminate]. intros [= <- <-].
-  apply opt_dn_inv in Ed as (d & Hd & Ed). apply tag_inv in Ec. destruct (attributetype_inv _ _ _ Em) as [-> Hm]. apply tag_inv in Et.
+  apply opt_dn_m_inv in Ed as (d & Hd & Ed). apply tag_inv in Ec. destruct (attributetype_inv _ _ _ Em) as [-> Hm]. apply tag_inv in Et.
   destruct (unescaped_inv _ _ _ Eu) as (s & -> & Hv). subst i r1 r2.
   exists (IExt (Some m) None dn v), (d ++ ":"%byte :: m ++ ":"%byte :: "="%byte :: s).
   repeat split; [|now constructor]. cbn; rewrite <- ?app_assoc; cbn; now rewrite <- ?app_assoc.
